@@ -4,20 +4,20 @@ import os
 
 # property -> rules deciding its structural clauses (DESIGN.md section 4)
 PROPS = {
-    'C01': ['DISPATCH', 'ACDUAL', 'FINCHK', 'SYMIDX', 'ORDTOTAL', 'FRAMERESET', 'MERGE', 'CACHELIFE', 'SIBLING', 'ERASER'],
-    'C02': ['UNIONCONTRIB', 'PRODUCT', 'WORKLIST', 'COW'],
-    'C03': ['SIZEEQ', 'WORKLIST', 'DRAIN', 'COW'],
-    'C04': ['KIND', 'SIMMAP', 'COPYALL', 'LOOPBOUND'],
-    'C05': ['SIMMAP', 'KIND', 'LOOPBOUND', 'DRAIN', 'WORKLIST', 'SIZEEQ', 'COW'],
-    'C07': ['DISPATCH', 'ACDUAL', 'FINCHK', 'MERGE', 'PARALLEL', 'COLLECTALL', 'CACHELIFE', 'SIBLING'],
-    'C08': ['UNIONCONTRIB', 'PRODUCT', 'WORKLIST', 'DRAIN', 'INIT', 'COLLECTALL', 'ARITY'],
-    'C09': ['DISPATCH', 'ACDUAL', 'FINCHK', 'MEMO', 'HASHEQ', 'ORDTOTAL'],
-    'C10': ['UNIONCONTRIB', 'PRODUCT', 'PAIRFIELD', 'FINCHK', 'WORKLIST', 'DRAIN', 'PARAMPATH', 'COW'],
+    'C01': ['DISPATCH', 'ACDUAL', 'FINCHK', 'SYMIDX', 'ORDTOTAL', 'FRAMERESET', 'MERGE', 'CACHELIFE', 'SIBLING', 'ERASER', 'FORWARD'],
+    'C02': ['UNIONCONTRIB', 'PRODUCT', 'WORKLIST', 'COW', 'FORWARD'],
+    'C03': ['SIZEEQ', 'WORKLIST', 'DRAIN', 'COW', 'FORWARD'],
+    'C04': ['KIND', 'SIMMAP', 'COPYALL', 'LOOPBOUND', 'FORWARD'],
+    'C05': ['SIMMAP', 'KIND', 'LOOPBOUND', 'DRAIN', 'WORKLIST', 'SIZEEQ', 'COW', 'FORWARD'],
+    'C07': ['DISPATCH', 'ACDUAL', 'FINCHK', 'MERGE', 'PARALLEL', 'COLLECTALL', 'CACHELIFE', 'SIBLING', 'FORWARD'],
+    'C08': ['UNIONCONTRIB', 'PRODUCT', 'WORKLIST', 'DRAIN', 'INIT', 'COLLECTALL', 'ARITY', 'FORWARD'],
+    'C09': ['DISPATCH', 'ACDUAL', 'FINCHK', 'MEMO', 'HASHEQ', 'ORDTOTAL', 'FORWARD'],
+    'C10': ['UNIONCONTRIB', 'PRODUCT', 'PAIRFIELD', 'FINCHK', 'WORKLIST', 'DRAIN', 'PARAMPATH', 'COW', 'FORWARD'],
     'C11': ['COW', 'CLEARALL', 'HASHCONS', 'CACHELIFE'],
-    'C13': ['TEXT', 'PARAMPATH', 'PAIRFIELD'],
+    'C13': ['TEXT', 'PARAMPATH', 'PAIRFIELD', 'FORWARD'],
     'C12': ['COW', 'HASHCONS', 'ITER', 'NONEMPTY', 'CLEARALL', 'PARAMPATH'],
-    'C14': ['KIND', 'COW'],
-    'C15': ['FINCHK', 'WORKLIST', 'DRAIN', 'KIND', 'HASHCONS', 'COW'],
+    'C14': ['KIND', 'COW', 'FORWARD'],
+    'C15': ['FINCHK', 'WORKLIST', 'DRAIN', 'KIND', 'HASHCONS', 'COW', 'FORWARD'],
     'C17': ['CANON', 'TEXT'],
     'C18': ['REFCNT'],
     'C19': ['KIND', 'SIMMAP', 'DISPATCH', 'SIBLING', 'ACDUAL', 'ORDTOTAL', 'FRAMERESET', 'HASHEQ', 'MEMO'],
@@ -54,6 +54,7 @@ FILTER = {
     ('C01', 'CACHELIFE'): r'explicit_tree|util/cache', ('C07', 'CACHELIFE'): r'tree_incl_down|util/cache', ('C11', 'CACHELIFE'): r'util/cache',
     ('C01', 'FINCHK'): r'explicit_tree_incl', ('C07', 'FINCHK'): r'up_tree_incl_fctor', ('C09', 'FINCHK'): r'explicit_finite_incl',
     ('C12', 'NONEMPTY'): r'explicit_tree',
+    ('C01', 'FORWARD'): r'explicit_tree_aut', ('C02', 'FORWARD'): r'explicit_tree_aut', ('C03', 'FORWARD'): r'explicit_tree_aut', ('C04', 'FORWARD'): r'explicit_tree_aut', ('C05', 'FORWARD'): r'explicit_tree_aut', ('C14', 'FORWARD'): r'explicit_tree_aut', ('C15', 'FORWARD'): r'explicit_tree_aut', ('C09', 'FORWARD'): r'explicit_finite_aut', ('C10', 'FORWARD'): r'explicit_finite_aut', ('C07', 'FORWARD'): r'bdd_', ('C08', 'FORWARD'): r'bdd_',
     ('C12', 'COW'): r'explicit_tree',
     ('C14', 'COW'): r'explicit_tree', ('C14', 'KIND'): r'explicit_tree|explicit_finite|bdd_',
     ('C19', 'KIND'): r'explicit_tree',
